@@ -170,6 +170,17 @@ func GenInputCase(t *rapid.T) (*Case, *InputMutation) {
 			c.InputDoc[f.Name] = genFieldValue(t, f, "doc."+f.Name)
 		}
 	}
+	// earlier runs of the same prepared workflow with other (valid) documents: which fields they
+	// provide must not influence how the observed document is normalised
+	for k, np := 0, rapid.IntRange(0, 3).Draw(t, "n_prior_docs"); k < np; k++ {
+		d := map[string]any{}
+		for _, f := range prog.Input {
+			if f.Required || rapid.Bool().Draw(t, fmt.Sprintf("prior%d.%s.present", k, f.Name)) {
+				d[f.Name] = genFieldValue(t, f, fmt.Sprintf("prior%d.%s", k, f.Name))
+			}
+		}
+		c.PriorDocs = append(c.PriorDocs, d)
+	}
 	var paths []inPath
 	inputPaths(prog.Input, "", nil, &paths)
 	byType := map[string][]inPath{}
